@@ -28,6 +28,7 @@ import (
 	"massnet.org/mass-wallet/masswallet"
 	"massnet.org/mass-wallet/masswallet/db/ldb"
 	"massnet.org/mass-wallet/masswallet/keystore"
+	"massnet.org/mass-wallet/masswallet/txmgr"
 )
 
 const PubPass = "DJr6BomK"
@@ -42,6 +43,10 @@ type Knobs struct {
 	GapLimit         uint32
 	WriteBuffer      int
 	NodeGates        bool
+	// ImportBatch / RemoveRound: sizes of a rescan batch (blocks) and of a
+	// removal round (credits); 0 = the built-in 1000 / 20000
+	ImportBatch uint64
+	RemoveRound int
 }
 
 //go:norace
@@ -50,6 +55,8 @@ func (k Knobs) Apply() {
 	consensus.MinFrozenPeriod = k.MinFrozen
 	consensus.MASSIP0002WarmUpHeight = k.WarmUpHeight
 	consensus.MASSIP0002BindingLockedPeriod = k.BindingLock
+	masswallet.SimSetImportBatch(k.ImportBatch)
+	txmgr.SimSetRemoveRound(k.RemoveRound)
 	consensus.MinStakingValue = k.MinStakingValue
 }
 
